@@ -74,15 +74,20 @@ func vNewRig(n int) *vRig {
 
 // vCheckTable compares the session's real fid table with the reference table.
 func (r *vRig) vCheckTable(where string) {
-	n := 0
+	n, all := 0, 0
 	r.sess.refs.Range(func(k, v interface{}) bool {
 		sf := v.(*SFid)
+		all++
 		if sf.Ent != nil {
 			n++
 		}
 		return true
 	})
 	vAssert(n == len(r.recs), "C08: the set of bound fids matches the reference table ("+where+")")
+	// an unbound fid must be reusable: between operations the table holds no
+	// placeholder (an entry without an Ent would make attach/walk onto that
+	// fid fail with duplicate fid although the fid is unbound)
+	vAssert(all == n, "C08: an unbound fid leaves nothing behind in the fid table and may be reused ("+where+")")
 	for _, rec := range r.recs {
 		v, ok := r.sess.refs.Load(rec.fid)
 		vAssert(ok, "C08: a fid bound in the reference table is bound in the session ("+where+")")
